@@ -39,7 +39,8 @@ F(name, base, off, w, enc, role, unit) == [name |-> name, base |-> base, off |->
      "aftermeta"  after the index metadata block (key/value pairs) that follows the fixed header
      "bucket0"    the header of the first non-empty bucket (compact index) / the first bucket (sig-exists)
      "record0"    the first record of the linked log / the first section of the CAR
-     "meta"       the index metadata block itself *)
+     "meta"       the index metadata block itself
+     "frame"      a crafted zstd frame replaces the compressed blob *)
 Formats == [
   compactindexsized |-> <<
       F("magic",        "start", 0, 8, "le", "plain", 0),
@@ -107,6 +108,13 @@ Formats == [
       F("cidCodec",     "record0", 2, 1, "le", "plain", 0),
       F("cidHashFn",    "record0", 3, 1, "le", "plain", 0),
       F("cidHashLen",   "record0", 4, 1, "le", "len", 1) >>,
+  \* a zstd frame in place of every compressed blob a parser decodes (linked-log record payload, transaction metadata):
+  \* magic, frame-header descriptor announcing an 8-byte content-size field, a window descriptor (absent in a single-segment
+  \* frame), the declared content size, one raw block of one byte.  A decoder may allocate the window or the declared size
+  \* up front: both are lengths the file controls.
+  zstd_frame |-> <<
+      F("windowDescriptor", "frame", 5, 1, "le", "len", 1),
+      F("frameContentSize", "frame", 6, 8, "le", "len", 1) >>,
   indexmeta |-> <<
       F("metaCount",    "start", 0, 1, "le", "count", 2),
       F("metaKeyLen",   "start", 1, 1, "le", "len", 1),
